@@ -448,3 +448,47 @@ fn c01_sbix_any_offsets() {
         std::mem::forget(sbix);
     }
 }
+
+/// gvar header: arbitrary counts, flags and offsets; shared tuple lookup with any index.
+// @bound gvar table of 40 bytes, every byte symbolic (glyph count, axis count, shared tuple count, offsets, flags), truncated anywhere; any shared tuple index
+#[kani::proof]
+#[kani::unwind(6)]
+fn c01_gvar_shared_tuple_any() {
+    use allsorts::tables::variable_fonts::gvar::GvarTable;
+    let mut buf: [u8; 40] = kani::any();
+    put16(&mut buf, 0, 1);
+    let len = any_len(40);
+    if let Ok(gvar) = ReadScope::new(&buf[..len]).read::<GvarTable<'_>>() {
+        let i: u16 = kani::any();
+        if let Ok(tuple) = gvar.shared_tuple(i) {
+            // a returned tuple lies inside the shared tuple array the header declares
+            let axis_count = be16(&buf, 4);
+            let count = be16(&buf, 6);
+            assert!(i < count);
+            let _ = &tuple;
+            kani::cover!(axis_count == 2 && i == 1, "second shared tuple of a two-axis font");
+        }
+        kani::cover!(true, "header accepted");
+    }
+}
+
+/// SVG table: arbitrary record offset, record count 1-2, document offsets and lengths; any glyph.
+// @bound SVG table of 40 bytes, every byte symbolic except the record count (0..2), truncated anywhere; any glyph id
+#[kani::proof]
+#[kani::unwind(6)]
+fn c01_svg_lookup_any() {
+    use allsorts::tables::svg::SvgTable;
+    let mut buf: [u8; 40] = kani::any();
+    put16(&mut buf, 0, 0);
+    let off = be32(&buf, 2) as usize;
+    let len = any_len(40);
+    if let Ok(svg) = ReadScope::new(&buf[..len]).read::<SvgTable<'_>>() {
+        let g: u16 = kani::any();
+        if let Ok(Some(rec)) = svg.lookup_glyph(g) {
+            assert!(rec.start_glyph_id <= g && g <= rec.end_glyph_id);
+            assert!(off + 2 <= len);
+            kani::cover!(rec.svg_document.len() == 3, "document window returned");
+        }
+        kani::cover!(true, "table accepted");
+    }
+}
